@@ -251,7 +251,7 @@ def run(rep, repo, tier):
       rule = "R3" if (k == "bias_quantizer" and v is None) else "R7"
       rep.check(got == v, rule, unit, "config:%s.%s" % (name, k),
                 "layer %s has %s=%r, expected %r" % (name, k, got, v),
-                loc=loc)
+                loc=loc, instance="%s.%s" % (name, k), observed=repr(got))
   # R2 precedence (d1 has a name entry, d2 only the class entry)
   l = converted.get("d1")
   if l is not None:
